@@ -39,6 +39,8 @@ def sig(o, level=3, ignore_attrs=False):
     if o.is_definition:
         return ["d", o.name, bool(o.is_disabled), attrs, [(w.value, w.quote_token) for w in o.words]]
     kids = [sig(c, level, ignore_attrs) for c in o.objects]
+    if o.objects and o.objects[0].merge_names and all(k is None for k in kids):
+        return None  # a scope that exists only as the dotted prefix of hidden objects is hidden with them
     return ["s", o.name, bool(o.is_disabled), attrs, [k for k in kids if k is not None]]
 
 
